@@ -57,5 +57,5 @@ def extra(tier, rng, build_cache, known):
 
 PINNED = ['C13_running_cancel_hits_target', 'C13_refuted_signal_hits_current_coroutine', 'C13_single_pool', 'C13_single_pool_no_bystander']
 LEVEL_TEXT = 'Pool model and oracle; clauses: a task cancelled before it starts never starts (unless cleaning its handle withdrew the request) and its waiter finds an error; a worker coroutine is reported Cancelled only while carrying a task whose cancel was requested (bystander clause). Theorems over ALL well-formed single-pool histories for the tracker clauses and for the bystander clause. Cancelling a RUNNING task goes through SIGVTALRM to the thread: small-step model (lookup, coroutine switch, delivery) with a theorem for all histories that only the target is cancelled when the thread does not switch coroutine between lookup and delivery, and a REFUTATION with the witness [lookup; switch; deliver] when it does: reproduced on the real code through the pause point in try_cancel_task (real threads, real signal), a recorded finding. Tied to /repo by histories on real pools compared in Coq, including cancels of finished tasks whose worker moved on.'
-LEVEL_NOTE = "Trusted: Coq kernel + vm_compute; hand transcription of co_pool/mod.rs, task.rs and the parts of scheduler.rs it uses (Sched/Pool.v over Sched/Sched.v, Coroutine/Co.v, Queue/OWS.v), validated on the sampled histories only; one scheduling thread at a time (the pool's scheduling half is !Sync), virtual clock (hooks H1/H2), DashMap/DashSet as association lists, process-global task/coroutine queues and cancel sets modelled as shared state of all pools. The single-pool theorems assume wf_pool1: ONE pool with min_size 0, keep_alive_time 0, max_size >= 1, operations naming submitted tasks, task bodies that keep the coroutine API contract (no self-cancel, syscall states well bracketed), clock steps not below the model clock; the evidence counts how many generated histories satisfy it (tag wf_pool1). Histories with two pools, or with keep-alive/min-size (keepalive_stop family), are covered by the correspondence and the oracle only. No axioms (every theorem closed under the global context)."
+LEVEL_NOTE = "Trusted: Coq kernel + vm_compute; hand transcription of co_pool/mod.rs, task.rs and the parts of scheduler.rs it uses (Sched/Pool.v over Sched/Sched.v, Coroutine/Co.v, Queue/OWS.v), validated on the sampled histories only; one scheduling thread at a time (the pool's scheduling half is !Sync), virtual clock (hooks H1/H2), DashMap/DashSet as association lists, process-global task/coroutine queues and cancel sets modelled as shared state of all pools. The single-pool theorems assume wf_pool1: ONE pool with min_size 0, ANY keep_alive_time, max_size >= 1, a clock that does not reach u64::MAX while a keep-alive is pending (for C01/C11), operations naming submitted tasks, task bodies that keep the coroutine API contract (no self-cancel, syscall states well bracketed), clock steps not below the model clock; the evidence counts how many generated histories satisfy it (tag wf_pool1). Histories with two pools, or with a minimum size, are covered by the correspondence and the oracle only. No axioms (every theorem closed under the global context)."
 TECHNIQUE = 'Coq proof (simulation invariant over all histories of a Gallina pool model; finite-state closure lifted to all schedules for the wait/notify and signal protocols) + differential correspondence inside Coq + forced real-thread schedules through cfg-guarded pause points'
